@@ -250,8 +250,19 @@ def gen_loss(rng, arith, model):
         fam = wchoice(rng, [("hash", 40), ("sq", 30), ("abs", 15), ("lin", 15)])
     else:
         fam = wchoice(rng, [("sq", 50), ("abs", 25), ("lin", 25)])
-    sig = wchoice(rng, [("pos", 45), ("other", 15), ("posonly", 15), ("named", 15), ("callable", 10)])
-    return {"family": fam, "seed": rng.getrandbits(32), "sig": sig}
+    sig = wchoice(rng, [("pos", 34), ("other", 10), ("posonly", 10), ("named", 10), ("callable", 8), ("varargs", 5),
+                        ("y_varargs", 4), ("decorated", 5), ("partial", 5), ("method", 5), ("defaulted", 4)])
+    out = {"family": fam, "seed": rng.getrandbits(32), "sig": sig}
+    # tiny-scale losses: a deviation must not hide below an absolute threshold
+    if arith == "exact":
+        k = wchoice(rng, [(0, 75), (6, 10), (12, 10), (20, 5)])
+    elif arith == "float":
+        k = wchoice(rng, [(0, 85), (6, 15)])
+    else:
+        k = 0
+    if k:
+        out["scale_exp"] = k
+    return out
 
 
 def gen_incremental(rng, cls, arith, storages, imputers, shared=None):
